@@ -54,8 +54,28 @@ func MetaSection(t *rapid.T) ([]byte, MetaExpect) {
 			mid = 0
 			body = spec.EncodeNaturalW(0, rapid.SampledFrom([]int{1, 1, 2, 4}).Draw(t, "midw"))
 			var vb [4]float32
-			mode := rapid.IntRange(0, 9).Draw(t, "vb.mode")
+			mode := rapid.IntRange(0, 10).Draw(t, "vb.mode")
 			switch {
+			case mode == 10: // finite and ordered, but so large that max - min overflows float32: valid
+				vb = [4]float32{-1, -1, 1, 1}
+				huge := func(l string) float32 {
+					b := math.Float32bits(float32(math.Ldexp(rapid.Float64Range(1, 1.99).Draw(t, l), rapid.IntRange(120, 127).Draw(t, l+".e")))) &^ 3
+					return math.Float32frombits(b)
+				}
+				k := rapid.IntRange(0, 1).Draw(t, "vb.hugeaxis")
+				vb[k], vb[k+2] = -huge("vb.hmin"), huge("vb.hmax")
+				if rapid.Bool().Draw(t, "vb.hugeboth") {
+					vb[1-k], vb[3-k] = -huge("vb.hmin2"), huge("vb.hmax2")
+				}
+				for _, v := range vb {
+					if v == 1 || v == -1 {
+						body = append(body, gridCoord(t, v, "vb.c")...)
+					} else {
+						body = append(body, spec.EncodeNaturalW(math.Float32bits(v)>>2, 4)...)
+					}
+				}
+				label("viewbox-valid")
+				label("viewbox-span-overflows-float32")
 			case mode <= 4: // valid, any widths
 				for {
 					x0 := float32(rapid.IntRange(-150*64, 150*64).Draw(t, "vb.x0")) / 64
